@@ -324,7 +324,8 @@ def run(tier, seed, only=None):
                   "outside": "programs outside the families; failures of the front end itself (counted, not claimed); wasm generation (C06/C07)"}
     hits = shims.scan_type_tests(os.path.join(core.REPO, "nsl", "VM.py"))
     if hits:
-        chk.errors.append("VM.py tests for exact int/float types; the proxy model would mask TypeErrors: " + "; ".join(hits[:3]))
+        # modelled since the `isinstance` / `type` shims exist (a proxy answers like the value it stands for); kept as a note
+        chk.extra.setdefault("notes", []).append("VM.py tests for exact int/float types (answered by the isinstance/type shims): " + "; ".join(hits[:3]))
     results = core.run_pool("vlib.harness.C05", "run_instance", [famcheck.pack(i) for i in items])
     dedupe_by_sig(results)
     chk.absorb_all(results)
